@@ -400,6 +400,8 @@ type syRig struct {
 	threads  []*syThread
 	streams  map[int]grpc.ClientStream
 	nextC    int64
+	rvC2S    chan *Rpc // the two unbuffered channels of the rendezvous topology
+	rvS2C    chan *Rpc
 	rmsgs    map[int64]*wrapperspb.BytesValue // the caller's message object of each stream
 	dumpWait bool                             // quiescence by goroutine dumps only (a concurrent handler may leave a goroutine waiting for a mutex)
 	armed    map[string]*syThread
@@ -478,6 +480,7 @@ func newSyRigOpt(topo int, byRef, lock, checkCtx bool) *syRig {
 		// zero slack, by reference: goat's own channel transport over UNBUFFERED channels (a Write returns when the peer
 		// has read); free-running only; the tap records what the client writes and what it reads
 		c2s, s2c := make(chan *Rpc), make(chan *Rpc)
+		r.rvC2S, r.rvS2C = c2s, s2c
 		crw = &syTapRW{inner: goat.NewGoatOverChannel(s2c, c2s), r: r}
 		go srv.Serve(r.ctx, goat.NewGoatOverChannel(c2s, s2c))
 	}
@@ -532,6 +535,22 @@ func (r *syRig) close() {
 	}
 	for _, e := range r.eps {
 		e.FailRead(io.EOF)
+	}
+	if r.rvC2S != nil {
+		// rendezvous topology: whatever is still written at the end (a stream's reset, written with its own 30 s
+		// deadline while the stream's lock is held) is taken, so that nobody waits for that lock for ever
+		go func() {
+			t := time.NewTimer(5 * time.Minute) // virtual: fires when everything else is at rest
+			defer t.Stop()
+			for {
+				select {
+				case <-r.rvC2S:
+				case <-r.rvS2C:
+				case <-t.C:
+					return
+				}
+			}
+		}()
 	}
 }
 
@@ -1102,6 +1121,9 @@ func (r *syRig) runSchedule(choose func(step int, en []syAct) int, maxSteps int)
 	synctest.Wait()
 	last := r.hist.mark()
 	for n := 0; n < maxSteps; n++ {
+		if syOnStep != nil {
+			syOnStep()
+		}
 		en := r.enabled()
 		if len(en) == 0 {
 			// nothing is enabled. If something is still pending (a busy thread, a running handler) make sure that it is
@@ -1161,6 +1183,7 @@ func (r *syRig) runSchedule(choose func(step int, en []syAct) int, maxSteps int)
 }
 
 var syEndDump string
+var syOnStep func() // progress signal for the wedge watcher
 
 func (r *syRig) pending() bool {
 	if r.active.Load() != 0 {
